@@ -485,30 +485,45 @@ impl FilterModel {
             FilterOp::SetFiltering(b) => self.enabled = *b,
         }
     }
-    /// endpoint indices: 0 = (no source, g1), 1 = (source, g1), 2 = (no source, g2), 3 = (source, g2)
-    fn accepts(&self, e: usize, tsi: u64) -> bool {
+    /// `regs`: the endpoints the operations refer to by index; `p`: the endpoint of the probed packet (one of them, or
+    /// one that was never registered: another port, another source, another group)
+    fn accepts(&self, regs: &[EndpointSpec], p: &EndpointSpec, tsi: u64) -> bool {
         if !self.enabled {
             return true;
         }
-        if self.all.get(&e).copied().unwrap_or(0) > 0 {
+        // listen-all: the exact endpoint only
+        if self.all.iter().any(|(e, c)| *c > 0 && regs[*e] == *p) {
             return true;
         }
-        if self.tsi.get(&(tsi, e)).copied().unwrap_or(0) > 0 {
-            return true;
-        }
-        // source address wildcarded: an entry without source accepts packets with any source
-        let wild = e & !1;
-        self.tsi.get(&(tsi, wild)).copied().unwrap_or(0) > 0
+        // (endpoint, TSI): the exact endpoint, or - source address wildcarded - an entry without source accepts packets
+        // with any source on the SAME group address and port
+        self.tsi.iter().any(|((t, e), c)| {
+            let r = &regs[*e];
+            *c > 0 && *t == tsi && (r == p || (r.src.is_none() && r.dst == p.dst && r.port == p.port))
+        })
     }
+}
+
+/// Endpoints packets are probed with: the four the operations register, and four that are never registered.
+fn probe_endpoints() -> Vec<EndpointSpec> {
+    let mut v = endpoints();
+    v.push(EndpointSpec { src: None, dst: "224.0.0.1".into(), port: 3401 });
+    v.push(EndpointSpec { src: Some("10.0.0.1".into()), dst: "224.0.0.1".into(), port: 3401 });
+    v.push(EndpointSpec { src: Some("10.0.0.2".into()), dst: "224.0.0.1".into(), port: 3400 });
+    v.push(EndpointSpec { src: Some("10.0.0.1".into()), dst: "224.0.0.3".into(), port: 3400 });
+    v
 }
 
 fn run_filter(seqs: &[Vec<FilterOp>], ctx: &Ctx) {
     let eps: Vec<flute::core::UDPEndpoint> = endpoints().iter().map(|e| e.build()).collect();
+    let regs = endpoints();
+    let pspecs = probe_endpoints();
+    let peps: Vec<flute::core::UDPEndpoint> = pspecs.iter().map(|e| e.build()).collect();
     let mut probes = 0u64;
     for seq in seqs {
         let recv = RecvSpec::basic();
         let monitor = Monitor::new_nodata(ctx, false, "f");
-        let mut rr = RecvRun::new(&recv, ctx, monitor, true, "f-nolistener");
+        let mut rr = RecvRun::new(&recv, ctx, monitor, true, "f");
         let mut model = FilterModel::default();
         let mut toi = 1u128;
         for (step, op) in seq.iter().enumerate() {
@@ -524,7 +539,7 @@ fn run_filter(seqs: &[Vec<FilterOp>], ctx: &Ctx) {
             }
             model.apply(op);
             // probe with a packet of every (endpoint, TSI): processed <=> a new object appears
-            for e in 0..4 {
+            for e in 0..peps.len() {
                 for tsi in [1u64, 2] {
                     toi += 1;
                     let (tl, ol) = wire::field_lens(tsi, toi);
@@ -542,10 +557,10 @@ fn run_filter(seqs: &[Vec<FilterOp>], ctx: &Ctx) {
                         ..Default::default()
                     });
                     let before = rr.nb_objects();
-                    rr.push(&eps[e], &pkt, t0_us() + probes);
+                    rr.push(&peps[e], &pkt, t0_us() + probes);
                     let processed = rr.nb_objects() > before;
                     probes += 1;
-                    let want = model.accepts(e, tsi);
+                    let want = model.accepts(&regs, &pspecs[e], tsi);
                     if processed != want {
                         violate(
                             ctx,
@@ -553,10 +568,32 @@ fn run_filter(seqs: &[Vec<FilterOp>], ctx: &Ctx) {
                             "-",
                             format!(
                                 "after {:?} a packet on endpoint #{} ({:?}) with TSI {} is {} but the filter state says {}",
-                                &seq[..=step], e, endpoints()[e], tsi,
+                                &seq[..=step], e, pspecs[e], tsi,
                                 if processed { "processed" } else { "skipped" },
                                 if want { "accept" } else { "skip" }
                             ),
+                        );
+                        return;
+                    }
+                }
+            }
+            // the filter applies to EVERY packet: a close-session packet of a pair that is rejected now (its session may
+            // still be alive from the time it was accepted) is skipped like any other - no session is reported closed
+            for e in 0..peps.len() {
+                for tsi in [1u64, 2] {
+                    if model.accepts(&regs, &pspecs[e], tsi) {
+                        continue;
+                    }
+                    let n_before = rr.sess_events.borrow().len();
+                    rr.push(&peps[e], &close_packet(tsi), t0_us() + probes);
+                    probes += 1;
+                    let closed: Vec<String> = rr.sess_events.borrow()[n_before..].iter().map(|ev| format!("{} {:?} tsi {}", if ev.open { "open" } else { "closed" }, ev.key.endpoint, ev.key.tsi)).collect();
+                    if !closed.is_empty() {
+                        violate(
+                            ctx,
+                            "C18/filter-accepts-unlisted",
+                            "close-session-packet",
+                            format!("after {:?} a close-session packet on endpoint #{} ({:?}) with TSI {} - a pair the filter rejects - was processed: listener events {:?}", &seq[..=step], e, pspecs[e], tsi, closed),
                         );
                         return;
                     }
